@@ -204,6 +204,20 @@ func c05CheckWith(dec *hessian.Decoder, objs []*av.V, exps []interface{}, opt re
 	if _, _, derr := refcodec.Decode(b); derr != nil && e.AmbiguousBinary == 0 {
 		return b, "", fmt.Sprintf("reference decoder rejects the reference encoding: %v", derr)
 	}
+	if dec == nil && len(b) < 4000 {
+		// the same message from a source that delivers one octet per Read and reports the end together with the
+		// last one: whatever is skipped or read in one go must not depend on how the octets arrive
+		var out interface{}
+		var err error
+		if pv, st := guard(func() {
+			out, err = hessian.NewDecoder(&countingReader{b: b, max: 1, eofWithData: true}, c05TM).ReadObject()
+		}); pv != nil || err != nil {
+			return b, fmt.Sprintf("decode from a reader that delivers one octet at a time failed: %v %v [%s]", err, pv, st), ""
+		}
+		if msg := c05Compare(objs, exps, out); msg != "" {
+			return b, "from a reader that delivers one octet at a time: " + msg, ""
+		}
+	}
 	var out interface{}
 	var err error
 	if pv, st := guard(func() {
@@ -215,22 +229,26 @@ func c05CheckWith(dec *hessian.Decoder, objs []*av.V, exps []interface{}, opt re
 	}); pv != nil || err != nil {
 		return b, fmt.Sprintf("decode failed: %v %v [%s]", err, pv, st), ""
 	}
+	return b, c05Compare(objs, exps, out), ""
+}
+
+func c05Compare(objs []*av.V, exps []interface{}, out interface{}) string {
 	if len(objs) == 1 {
 		if cerr := vcmp.Equal(exps[0], out, c05NM); cerr != nil {
-			return b, "fields not bound by name: " + cerr.Error(), ""
+			return "fields not bound by name: " + cerr.Error()
 		}
-		return b, "", ""
+		return ""
 	}
 	l, ok := out.([]interface{})
 	if !ok || len(l) != len(exps) {
-		return b, fmt.Sprintf("list of %d instances came back as %T (%d)", len(exps), out, reflect.ValueOf(out).Len()), ""
+		return fmt.Sprintf("list of %d instances came back as %T", len(exps), out)
 	}
 	for i := range exps {
 		if cerr := vcmp.Equal(exps[i], l[i], c05NM); cerr != nil {
-			return b, fmt.Sprintf("instance #%d built from the wrong definition or fields: %v", i, cerr), ""
+			return fmt.Sprintf("instance #%d built from the wrong definition or fields: %v", i, cerr)
 		}
 	}
-	return b, "", ""
+	return ""
 }
 
 // compactDates takes the compact alternative wherever a date has one.
